@@ -4,7 +4,10 @@ package rg
 // Constructs are written with SSA register names normalised to t_ (see normRegs).
 func exceptionTable() []*Exception {
 	multi := "stripe positions come from sortedLockPoses, whose every element is a GetKeyPos result (hash % len(l.locks), proved in range by R1 at the single-key helpers) copied through a set; l.locks is assigned only in NewLocks"
+	freshHash := "the only error return after the creation comes from Hash.IncrBy/IncrByFloat, which fail only for an existing non-numeric field or an overflow: impossible on the hash that was just created empty (the two are on mutually exclusive paths that the path-insensitive rule cannot separate)"
 	return []*Exception{
+		{Rule: "R27", Func: "memdb.hIncrByHash", Construct: "no db.Set before an error reply", Reason: freshHash},
+		{Rule: "R27", Func: "memdb.hIncrByFloatHash", Construct: "no db.Set before an error reply", Reason: freshHash},
 		{Rule: "R1", Func: "(*memdb.Locks).LockMulti", Construct: "index l.locks[t_[(t_+1)]]", Reason: multi},
 		{Rule: "R1", Func: "(*memdb.Locks).RLockMulti", Construct: "index l.locks[t_[(t_+1)]]", Reason: multi},
 		{Rule: "R1", Func: "(*memdb.Locks).UnLockMulti", Construct: "index l.locks[t_[(t_+1)]]", Reason: multi},
